@@ -594,6 +594,15 @@ func c03WitnessSeekHit(variant int) c03Case {
 	return cs
 }
 
+// c03ProbeFailReset tells whether a block whose load failed is reset (repair C09-2, decompressor.failAt).  Nothing a
+// caller can see depends on it; the reader's Put calls do: the block that fails at the end of the file has been read
+// from (used); it is re-loaded with b2 without being read, goes through the cache, becomes current again while the
+// LRU(1) is full, and is then offered: a reset block is unused and refused ("P70=r"), an unreset one evicts ("P70=e0").
+func c03ProbeFailReset() c03Case {
+	return c03Case{Payloads: []string{"414141414141", "424242424242", "43434343"}, Rd: 1, Tag: "probe-failreset",
+		Ops: []string{"r20", "s2,0", "cL,1", "s0,0", "r1", "s2,0", "s1,0"}}
+}
+
 func c03WitnessFifo(kind string, rd int) c03Case {
 	return c03Case{Payloads: []string{"414141414141", "424242424242", "43434343"}, Rd: rd, Tag: "witness-fifo",
 		Ops: []string{fmt.Sprintf("c%s,2", kind), "r2", "s1,0", "r2", "s0,0", "r6", "s2,0", "r4", "s0,1", "r5"}}
@@ -803,7 +812,7 @@ func checkC03(c *ctx) {
 		"SetCache(kind, capacity 1..4) at a random point (and again later, and SetCache(nil)); 3 in 4 seeks revisit a member touched at most capacity+1 seeks ago; " +
 		"each history is run uncached (rd=1) and with the cache for rd=1 (compared with the Lean model call by call, including the reader's Get/Put calls on the cache) and rd=2,3. " +
 		"A case is non-trivial when the cached run makes at least one cache hit or eviction; distinct = distinct (file, history, kind, capacity, rd)."
-	x := &c03Ctx{c: c, res: res, cfg: "00"}
+	x := &c03Ctx{c: c, res: res, cfg: "000"}
 	if c.replay != "" {
 		var cs c03Case
 		if err := loadReplay(c.replay, &cs); err != nil {
@@ -906,9 +915,22 @@ func checkC03(c *ctx) {
 			}
 		}
 	}
+	failReset := "0"
+	{
+		cs := c03ProbeFailReset()
+		ans, st, msg, fr := p0.ask(cs)
+		res.eval("probe-failreset", true)
+		res.hist("probe: is a block reset after a failed load (variant detection only)")
+		x.judge(cs, ans, st, msg, fr, false)
+		if st != "ok" {
+			p0, _ = c03Start()
+		} else if n := len(ans.Calls); n > 0 && strings.Contains(ans.Calls[n-1], "P70=r") {
+			failReset = "1"
+		}
+	}
 	p0.kill()
-	x.cfg = guardp + clear
-	res.note("code variant detected from the witnesses: peekGuard=%s clearOnRebase=%s (model run with this variant)", guardp, clear)
+	x.cfg = guardp + clear + failReset
+	res.note("code variant detected from the witnesses: peekGuard=%s clearOnRebase=%s failReset=%s (model run with this variant)", guardp, clear, failReset)
 	lap("witnesses")
 
 	// ---- random cases, W children
